@@ -4,6 +4,7 @@ import (
 	"fmt"
 	"sort"
 	"strings"
+	"time"
 
 	"verif/internal/check"
 	"verif/internal/e1"
@@ -15,9 +16,24 @@ type acc struct {
 	nontrivial int
 	samples    []any
 	rules      []string
+	last       time.Time
+	partSecs   []string // wall time per part, in the order run (evidence only; nothing is decided on it)
 }
 
 func (a *acc) add(eval, nontrivial int, rule string, samples ...any) {
+	now := time.Now()
+	if a.last.IsZero() {
+		a.last = procStart
+	}
+	name := rule
+	if i := strings.IndexAny(name, ":("); i > 0 {
+		name = name[:i]
+	}
+	if len(name) > 48 {
+		name = name[:48]
+	}
+	a.partSecs = append(a.partSecs, fmt.Sprintf("%s=%.1fs", strings.TrimSpace(name), now.Sub(a.last).Seconds()))
+	a.last = now
 	a.eval += eval
 	a.nontrivial += nontrivial
 	if rule != "" {
@@ -30,7 +46,10 @@ func (a *acc) add(eval, nontrivial int, rule string, samples ...any) {
 	}
 }
 
+var procStart = time.Now()
+
 func (a *acc) finish(c *check.Ctx) int {
+	c.Coverage["wall_seconds_per_part"] = a.partSecs
 	return c.Finish(a.eval, a.nontrivial, strings.Join(a.rules, " || "), a.samples)
 }
 
